@@ -114,7 +114,7 @@ PLANS = {
     'C01': dict(
         module='RucteProps.C01',
         extra_modules=['RucteProps.C01Nodes'],
-        theorems=['Ructe.C01.textLit_ascii', 'Ructe.C01.textLit_nonascii', 'Ructe.C01.lower_text', 'Ructe.C01.render_text'],
+        theorems=['Ructe.C01.textLit_ascii', 'Ructe.C01.textLit_nonascii', 'Ructe.C01.lower_text', 'Ructe.C01.render_text', 'Ructe.C01.text_node_sound', 'Ructe.C01.comment_node_sound', 'Ructe.C01.node_consumes', 'Ructe.C01.text_complete', 'Ructe.C01.escapes_complete'],
         runs=[dict(suite='parse', mix='examples,text,structured', n=dict(quick=4000, thorough=80000), projection='body',
                    tags=['C01'], literal_oracle=True),
               dict(suite='e2e', n=dict(quick=300, thorough=6000), projection='identity', tags=['C01'])],
